@@ -124,6 +124,7 @@ func runC08(c *core.Ctx) *core.Outcome {
 	cfg.Backend = t.Weighted(4, 2, 1, 2)
 	cfg.SetSession = t.Chance(1, 2)
 	cfg.FinishAlways = t.Chance(1, 3)
+	cfg.First = t.Chance(1, 4)
 	mode := t.Weighted(2, 3, 2) // long-lived, persisted, mixed
 	w := world.New(a, cfg)
 	w.UseBackend()
